@@ -138,8 +138,10 @@ def check_one(cls: Any, v: Any) -> tuple[str, list[tuple[str, str]]]:
     if not in_declared:
         step = step_at(cls, Fraction(v))
         if lo - step < v < hi + step:
-            # less than one step outside: truncation towards the boundary value, not a wrap
-            return "accepted-within-one-step-of-bound", []
+            # less than one step outside: truncation/rounding towards the boundary value, not a wrap - still "outside the
+            # declared range"; identified by the encoder that does it (one finding per encoder, not per subclass)
+            site = getattr(cls.to_knx, "__func__", cls.to_knx).__qualname__
+            return "accepted-within-one-step-of-bound", [(f"out-of-range-accepted-within-one-step:{site}", f"{name}.to_knx({v!r}) -> {payload!r} although declared range is {lo}..{hi}")]
         return "accepted-out-of-range", [(f"out-of-range-accepted:{name}", f"{name}.to_knx({v!r}) -> {payload!r} although declared range is {lo}..{hi}")]
     if not isinstance(payload, cls.payload_type) or len(payload.value) != cls.payload_length or not all(isinstance(b, int) and 0 <= b <= 255 for b in payload.value):
         return "bad-payload", [(f"bad-payload:{name}", f"{name}.to_knx({v!r}) -> {payload!r}")]
